@@ -22,6 +22,19 @@ static int chain_len() { return pixman_verif_chain_length(_pixman_internal_only_
 
 // ---------------------------------------------------------------- scenes
 static std::string render_scene(const Scene &sc) {
+  if (sc.twin_primer) {
+    // the same request with a plain mask (no transform, nearest, no repeat) is drawn first: the implementations remember
+    // recently resolved (operator, formats, flags) combinations per thread, and what was remembered for the plain mask must
+    // not be used for the transformed one (seeded C02u)
+    Scene a = sc;
+    a.twin_primer = 0;
+    a.mask.has_transform = 0;
+    a.mask.filter = 0;
+    a.mask.repeat = 0;
+    Built pb;
+    build(a, pb);
+    if (pb.ok) draw(a, pb);
+  }
   Built b;
   build(sc, b);
   if (!b.ok) return "BUILD-FAILED";
@@ -107,6 +120,8 @@ static Verdict judge_scene(const Scene &sc, const std::vector<std::string> &res,
   v.label(fmt("distinct_paths_%zu", std::min<size_t>(levels.size(), 4)));
   if (sc.src.has_transform) v.label("transformed");
   if (sc.has_mask) v.label("masked");
+  if (sc.twin_primer) v.label("preceded_by_plain_mask_twin");
+  if (sc.mask_shares_bits) v.label("pixbuf_pair");
   return v;
 }
 
@@ -251,7 +266,25 @@ static void register_props() {
   add_worker_prop<Scene>(
       "scene",
       [] {
-        if (coin(70)) return gen_plain_scene(300, 8);
+        if (coin(70)) {
+          Scene sc = gen_plain_scene(300, 8);
+          if (sc.has_mask && !sc.mask_is_src && !sc.mask_shares_bits && sc.mask.kind == 0 && sc.src.kind == 0 && sc.src.has_transform && coin(30)) {
+            // the mask is placed exactly like the source (same size, transform, filter, repeat, origin), and the request is
+            // preceded by its twin with a plain mask
+            sc.mask.bits.w = sc.src.bits.w;
+            sc.mask.bits.h = sc.src.bits.h;
+            sc.mask.has_transform = 1;
+            sc.mask.m = sc.src.m;
+            sc.mask.filter = sc.src.filter;
+            sc.mask.kw = sc.src.kw, sc.mask.kh = sc.src.kh, sc.mask.kbx = sc.src.kbx, sc.mask.kby = sc.src.kby;
+            sc.mask.kseed = sc.src.kseed, sc.mask.kneg = sc.src.kneg, sc.mask.ksum = sc.src.ksum;
+            sc.mask.repeat = sc.src.repeat;
+            sc.mx = sc.sx;
+            sc.my = sc.sy;
+            sc.twin_primer = 1;
+          }
+          return sc;
+        }
         GenOpts o;
         o.maxw = 300;
         o.maxh = 8;
